@@ -229,13 +229,11 @@ func (d *DeadlineChan[T]) Cancel(err error) error {
 // Close cancels pending calls to Send and Recv. Those calls will return
 // io.EOF rather than os.ErrDeadlineExceeded even after the deadline has expired
 func (d *DeadlineChan[T]) Close() error {
-	d.m.Lock()
-	defer d.m.Unlock()
-
-	if d.closed.Load() {
+	// Close must not wait for d.m: a Send blocked on a full queue holds it
+	// until it is canceled, and Close is what cancels it
+	if d.closed.Swap(true) {
 		return io.EOF
 	}
-	d.closed.Store(true)
 	d.deadline.Cancel(io.EOF)
 	return nil
 }
